@@ -4,6 +4,8 @@
 package userfunc
 
 import (
+	"sync"
+
 	"github.com/hashicorp/hcl/v2"
 	"github.com/zclconf/go-cty/cty"
 	"github.com/zclconf/go-cty/cty/function"
@@ -44,8 +46,15 @@ func decodeUserFunctions(body hcl.Body, blockType string, contextFunc ContextFun
 	// first call to getBaseCtx will populate context, and then the same
 	// context will be used for all subsequent calls. It's assumed that
 	// all functions in a given body should see an identical context.
+	//
+	// The returned functions may be called concurrently (they are typically
+	// placed in an EvalContext that is shared between goroutines), so the
+	// lazy initialization is guarded by a mutex.
 	var baseCtx *hcl.EvalContext
+	var baseCtxLock sync.Mutex
 	getBaseCtx := func() *hcl.EvalContext {
+		baseCtxLock.Lock()
+		defer baseCtxLock.Unlock()
 		if baseCtx == nil {
 			if contextFunc != nil {
 				baseCtx = contextFunc()
